@@ -498,7 +498,7 @@ func trunc(s string, n int) string {
 }
 
 var c19Main = newPart("C19", "hostile-histories",
-	"rapid: histories of 2..16 requests to the REAL server binary: methods {GET,POST,PUT,DELETE,HEAD,PATCH,OPTIONS, extension and odd tokens such as PROPFIND, BREW, TRACE, CONNECT, get, a 40-letter token} x paths (ten endpoints, /, /docs..., unknown, 4 KiB long, percent-encoded, doubled/trailing slashes, case variants) x bodies from a JSON mutation grammar over each endpoint's well-formed body (empty, truncated at any byte, unterminated string, a valid object followed by trailing bytes, numbers the JSON grammar does not allow (01, 1., +1, 0x10, NaN ...), raw control characters inside a string, arbitrary bytes, a dropped field, every field x every JSON type incl. null/bool/array/object/number where a string is expected, numbers at +-2^53, +-2^63, 2^64, 1e400, -1, 1.5, numbers drawn from the whole JSON number grammar (zero and non-zero mantissas of up to 1000 digits, fractions, exponents up to +-2^63 and beyond), skew/period/counter/timestamp extremes, blank and 1 MiB strings, contradictory suites incl. blank raw_suite, nested arrays, bodies at and over the 1 MiB limit), every 3rd..5th request a well-formed probe whose answer is checked against the reference; invariant over the history: every request gets a complete parseable HTTP response within 5 s (one lone retry with 15 s), syntactically broken bodies on the POST endpoints, wrong methods (other than HEAD / OPTIONS) and plain unknown paths get a failure status (>= 400); wrongly typed / out-of-range / blank / missing-required fields get a failure status or, if the service handles them, the endpoint's actual result (never an error description under a success status), probes 200 with the RFC value, the process is alive and reports no unrecovered panic; non-trivial = history with at least one non-well-formed request",
+	"enumerated corner windows (validation requests whose window touches the ends of the counter / time range: 10 counters x 4 windows, 8 instants x 3 periods x 2 windows, a string no counter produces and a digit string as the code, each followed by a probe) and rapid: histories of 2..16 requests to the REAL server binary: methods {GET,POST,PUT,DELETE,HEAD,PATCH,OPTIONS, extension and odd tokens such as PROPFIND, BREW, TRACE, CONNECT, get, a 40-letter token} x paths (ten endpoints, /, /docs..., unknown, 4 KiB long, percent-encoded, doubled/trailing slashes, case variants) x bodies from a JSON mutation grammar over each endpoint's well-formed body (empty, truncated at any byte, unterminated string, a valid object followed by trailing bytes, numbers the JSON grammar does not allow (01, 1., +1, 0x10, NaN ...), raw control characters inside a string, arbitrary bytes, a dropped field, every field x every JSON type incl. null/bool/array/object/number where a string is expected, numbers at +-2^53, +-2^63, 2^64, 1e400, -1, 1.5, numbers drawn from the whole JSON number grammar (zero and non-zero mantissas of up to 1000 digits, fractions, exponents up to +-2^63 and beyond), skew/period/counter/timestamp extremes, blank and 1 MiB strings, contradictory suites incl. blank raw_suite, nested arrays, bodies at and over the 1 MiB limit), every 3rd..5th request a well-formed probe whose answer is checked against the reference; invariant over the history: every request gets a complete parseable HTTP response within 5 s (one lone retry with 15 s), syntactically broken bodies on the POST endpoints, wrong methods (other than HEAD / OPTIONS) and plain unknown paths get a failure status (>= 400); wrongly typed / out-of-range / blank / missing-required fields get a failure status or, if the service handles them, the endpoint's actual result (never an error description under a success status), probes 200 with the RFC value, the process is alive and reports no unrecovered panic; non-trivial = history with at least one non-well-formed request",
 	checkC19)
 
 var jsonValues = []string{"null", "true", "false", "0", "1", "-1", "1.5", "1e3", "1e400", "-1e400", "9007199254740992", "-9007199254740993", "9223372036854775807", "9223372036854775808", "-9223372036854775808", "-9223372036854775809",
@@ -652,6 +652,29 @@ func drawProbe(t *rapid.T, ep string) restStep {
 }
 
 func TestC19_Hostile(t *testing.T) {
+	// corner windows, enumerated (the random histories meet a particular pair of counter and window only now and then): validation
+	// requests whose window touches the ends of the counter / time range, with a code that matches nothing, each followed by a probe
+	i := 0
+	probe := hostileReq{Probe: true, ProbeReq: restStep{Ep: "hotp-gen", Key: []byte("12345678901234567890"), Sp: gen.Spelling{Pad: 1}, HasCtr: true, Ctr: 1}}
+	corner := func(ep, body string) {
+		if i++; ev.Mine(i) {
+			c19Main.each(t, c19Case{Reqs: []hostileReq{{Method: "POST", Path: postEndpoints[ep], Ep: ep, Mutation: "raw", Raw: []byte(body)}, probe}})
+		}
+	}
+	for _, ctr := range []string{"18446744073709551615", "18446744073709551614", "18446744073709551605", "18446744073709551604", "9223372036854775808", "9223372036854775807", "4294967296", "0", "1", "10"} {
+		for _, skew := range []string{"", `,"skew":0`, `,"skew":1`, `,"skew":10`} {
+			for _, code := range []string{"zzzzzz", "000000"} { // a string no counter produces (a loop that wraps never ends), and a digit string
+				corner("hotp-val", `{"secret":"GEZDGNBVGY3TQOJQGEZDGNBVGY3TQOJQ","code":"`+code+`","counter":`+ctr+skew+`}`)
+			}
+		}
+	}
+	for _, ts := range []string{"0", "1", "29", "299", "2147483648", "9007199254740992", "4611686018427387903", "9223372036854775807"} {
+		for _, per := range []string{"", `,"period":1`, `,"period":4294967295`} {
+			for _, skew := range []string{"", `,"skew":10`} {
+				corner("totp-val", `{"secret":"GEZDGNBVGY3TQOJQGEZDGNBVGY3TQOJQ","code":"zzzzzz","timestamp":`+ts+per+skew+`}`)
+			}
+		}
+	}
 	c19Main.rapid(t, ev.Pick(400, 8_000), func(t *rapid.T) c19Case {
 		n := rapid.IntRange(2, 16).Draw(t, "n")
 		var c c19Case
